@@ -42,13 +42,13 @@ def run(ev, vd):
     def job(j):
         k, (mode, topo) = j
         out = os.path.join(BUILD, "tmp", "hb_%d.ndjson" % k)
-        rc, o, dt = conc.run_harness(cbin("hb"), [out, ev.seed * 100 + k, tier(), mode], topo=topo, timeout=600)
+        rc, o, dt = conc.run_harness(cbin("hb"), [out, ev.seed * 100 + k, tier(), mode], topo=topo, timeout=(900 if tier() == "thorough" else 400))
         return j, out, rc, o
     with cf.ThreadPoolExecutor(max_workers=4) as ex:
         results = list(ex.map(job, list(enumerate(jobs))))
     paths = []
     for (k, (mode, topo)), out, rc, o in results:
-        if rc == 124:
+        if rc in (124, -9, 137):
             vd.violation(dict(component="hb", op="hang-" + mode), "hb harness (%s) did not finish (a lock never admitted a requester?)" % mode, dict(mode=mode))
         elif rc not in (0, 43, 44):
             raise ToolError("hb harness failed rc=%s (%s):\n%s" % (rc, mode, o[-1500:]))
